@@ -354,13 +354,14 @@ def conditions(tier, seed):
             if not sp.get("seq_only") and (not asyncm or name.split("_")[0] in ASYNC_AWARE):
                 forms.append("agen" if asyncm else "gen")
             for form in forms:
+                ml = maxlen
                 if not thorough and form in ("gen",) and name not in ("batch", "first", "sum", "groupby", "select_test", "unique"):
-                    continue
-                p = dict(spec=name, asyncm=asyncm, form=form, maxlen=maxlen)
+                    ml = 2   # one-shot iterators for every filter, at a smaller bound in the quick tier
+                p = dict(spec=name, asyncm=asyncm, form=form, maxlen=ml)
                 out.append(Cond(f"{name}[{'async' if asyncm else 'sync'},{form}]", "filt_ok", mode="A", param=p, timeout=to,
                                 witnesses=[[[3, 1, 3], [7, 8, 9], 2, 5, True, False], [[], [], 1, 0, False, False],
-                                           [[2, 2, 1], [0, 1, 2], 3, -1, True, True]][: (3 if maxlen >= 3 else 2)],
-                                bounds=f"lists of <= {maxlen} arbitrary ints (items: dicts k/v of arbitrary ints), any int n/m, any flags; template: {sp['expr']}"))
+                                           [[2, 2, 1], [0, 1, 2], 3, -1, True, True]][: (3 if ml >= 3 else 2)] + ([[[1, 4], [5, 6], 1, 2, True, False]] if ml == 2 else []),
+                                bounds=f"lists of <= {ml} arbitrary ints (items: dicts k/v of arbitrary ints), any int n/m, any flags; template: {sp['expr']}"))
     for name, sp in SSPECS.items():
         for asyncm in (False, True):
             ml = maxlen - 1 if name in ("dictsort", "groupby_str_default", "join_int", "groupby_str") else maxlen
